@@ -90,3 +90,73 @@ def run_shards(fn, nshards=None, extra=()):
         for r in pool.imap_unordered(_shard_entry, [(fn, i, nshards, extra) for i in range(nshards)]):
             total.merge(r)
     return total
+
+
+class ForkServer:
+    """A lean, pristine template process that forks one child per job.
+
+    Started before the parent accumulates Hypothesis state, so forks stay cheap and every job sees a
+    process that has imported the code under test but never built or elaborated anything.
+    Jobs are (module-level function, args) pickled by reference."""
+
+    def __init__(self, init=None):
+        self.p2c_r, self.p2c_w = os.pipe()
+        self.c2p_r, self.c2p_w = os.pipe()
+        self.pid = os.fork()
+        if self.pid == 0:
+            try:
+                os.close(self.p2c_w); os.close(self.c2p_r)
+                import gc
+                gc.collect(); gc.freeze()
+                fin = os.fdopen(self.p2c_r, "rb"); fout = os.fdopen(self.c2p_w, "wb")
+                while True:
+                    try:
+                        job = pickle.load(fin)
+                    except EOFError:
+                        break
+                    if job is None:
+                        break
+                    fn, args, timeout = job
+                    try:
+                        val = in_child(fn, *args, timeout=timeout)
+                    except ChildCrash as e:
+                        val = ("__crash__", str(e))
+                    except BaseException as e:  # noqa
+                        val = ("__crash__", "server: %r" % (e,))
+                    pickle.dump(val, fout); fout.flush()
+            finally:
+                os._exit(0)
+        os.close(self.p2c_r); os.close(self.c2p_w)
+        self.fout = os.fdopen(self.p2c_w, "wb"); self.fin = os.fdopen(self.c2p_r, "rb")
+
+    def run(self, fn, *args, timeout=120):
+        pickle.dump((fn, args, timeout), self.fout); self.fout.flush()
+        val = pickle.load(self.fin)
+        if isinstance(val, tuple) and len(val) == 2 and val[0] == "__crash__":
+            raise ChildCrash(val[1])
+        return val
+
+    def close(self):
+        try:
+            pickle.dump(None, self.fout); self.fout.flush(); self.fout.close(); self.fin.close()
+        except Exception:
+            pass
+        try:
+            os.waitpid(self.pid, 0)
+        except Exception:
+            pass
+
+
+_SERVER = None
+
+
+def server():
+    """Per-process fork server (created on first use; call early, before heavy allocation)."""
+    global _SERVER
+    if _SERVER is None or _SERVER[0] != os.getpid():
+        _SERVER = (os.getpid(), ForkServer())
+    return _SERVER[1]
+
+
+def pristine(fn, *args, timeout=120):
+    return server().run(fn, *args, timeout=timeout)
